@@ -329,7 +329,8 @@ class _LibrationDynamicsService(_DynamicsServiceBase):
                 if gen_funcs.poly_G:
                     for i, g_data in enumerate(gen_funcs.poly_G):
                         gf = LieGeneratingFunction(
-                            poly_G=[g_data.copy()],
+                            # G_i is the degree-i block: keep it at position i of a full-length block list.
+                            poly_G=[g_data.copy() if k == i else np.zeros_like(other) for k, other in enumerate(gen_funcs.poly_G)],
                             poly_elim=[],
                             degree=max_deg,
                             ndof=3,
